@@ -108,19 +108,27 @@ def impl(case):
     if case['tmat'] is None:
         trajs = [np.array(t) for t in G.expand(case)]
         st = mh.StateTraj(trajs)
-        cm, perm = ts._get_cummat(trajs, case['lag'])
         out['states'] = [int(s) for s in st.states]
+        try:
+            cm, perm = ts._get_cummat(trajs, case['lag'])
+        except (AttributeError, TypeError) as exc:
+            # the instrumented private helper is gone / changed: public-API part only
+            out['hook_local'] = '_get_cummat: %s' % str(exc)[:120]
+            cm = perm = None
     else:
         T = np.array([[float(Fraction(x)) for x in r] for r in case['tmat']])
         n = len(T)
         cm = np.cumsum(mh.msm.row_normalize_matrix(T), axis=1)
         perm = np.tile(np.arange(n), (n, 1))
         out['states'] = list(range(n))
-    out['cm'] = [[float(x).hex() for x in r] for r in cm]
-    out['perm'] = [[int(x) for x in r] for r in perm]
-    n = len(cm)
+    if cm is not None:
+        out['cm'] = [[float(x).hex() for x in r] for r in cm]
+        out['perm'] = [[int(x) for x in r] for r in perm]
+    n = len(out['states'])
     # ---- injected draws (interpreted mode only)
-    if nojit:
+    if nojit and cm is not None and not hasattr(ts, '_propagate_MCMC_step'):
+        out['hook_local'] = '_propagate_MCMC_step is gone'
+    elif nojit and cm is not None:
         inj = []
         for i in range(n):
             us = {0.0, 1.0 - 2.0**-53, 0.5}
@@ -234,9 +242,14 @@ def judge(case, ibc, answers):
         if r['states'] != states:
             P('impl-vs-spec', 'state list %s != %s' % (r['states'], states))
             continue
-        cm = [[Fraction(float.fromhex(x)) for x in row] for row in r['cm']]
-        perm = r['perm']
-        check_cummat(cm, perm, Tex, states, P, estimated=case['tmat'] is None)
+        if r.get('hook_local'):
+            P('correspondence', 'instrumented private helper no longer matches: %s' % r['hook_local'])
+        if 'cm' in r:
+            cm = [[Fraction(float.fromhex(x)) for x in row] for row in r['cm']]
+            perm = r['perm']
+            check_cummat(cm, perm, Tex, states, P, estimated=case['tmat'] is None)
+        else:
+            cm = perm = None      # only the checks that need no sampling table remain
         # injected draws: model step on the implementation's own (rationalised) cumulative row
         for inj in r.get('inject', []):
             i = inj['row']
@@ -255,12 +268,23 @@ def judge(case, ibc, answers):
         us = [Fraction(float.fromhex(u)) for u in r['us']]
         N = case['steps']
         start_idx = states.index(case['start'])
+        ch = r['chain']
+        if cm is None:
+            if not isinstance(ch, dict):
+                if len(ch) != N:
+                    P('impl-vs-spec', 'chain has %d frames, requested %d' % (len(ch), N))
+                elif ch[0] != case['start'] and not (case['start'] == -1 and case['tmat'] is None):
+                    P('impl-vs-spec', 'chain starts in %s, requested start %s' % (ch[0], case['start']))
+                if not set(ch) <= set(states):
+                    P('impl-vs-spec', 'chain contains labels that are not states of the input')
+                if r['chain2'] != ch and not (case['start'] == -1 and case['tmat'] is None):
+                    P('impl-vs-spec', 'same generator state, different output')
+            continue
         req = [702, n]
         for i in range(n):
             req += C.eQs(cm[i]) + C.eZs(perm[i])
         req += [start_idx] + C.eQs(us)
         mchain = [states[k] for k in C.Reader(C.mrun([req])[0]).Zs()]
-        ch = r['chain']
         if isinstance(ch, dict):
             f = None
             if ch['err'] == 'IndexError' and case['tmat'] is None and max(mchain) != max(states):
